@@ -432,3 +432,6 @@ func NilNilDerefs(ds *Describer, fn *ssa.Function, resolve func(*ssa.Call) []*ss
 }
 
 func itoa(i int) string { return strconv.Itoa(i) }
+
+// IsDerefUse: instruction in dereferences v (field access, load, element access through a pointer, method call).
+func IsDerefUse(v ssa.Value, in ssa.Instruction) bool { return isDerefUse(v, in) }
